@@ -32,7 +32,7 @@ fn spec(tier: Tier) -> CheckSpec {
 		level: "exploration",
 		rule: "exhaustive: (chain3) every chain of 3 layers over names {a,b} x member kinds (quick: 7 kinds = absent, `:`, `::`, `:::`, `+:`, self-reference, super-reference; thorough: 9 kinds) x both composition syntaxes; \
 			(chain2) every chain of 2 layers over all 12 member kinds x layer extras (object local, assert true / assert on self / assert false) x std.objectRemoveKey masks (before layer 2, after layer 2, both; and a layer that is itself the result of a removal, alone and nested in outer removals of the same or the other key) x both syntaxes; thorough adds 3 names for 2 layers (7 kinds) and asserts+masks for 3 layers (4 plain kinds); \
-			(deep) chains of 4 and 5 layers with at most 4 non-absent members; (shared) every chain in which one layer *value* (all 12 kinds x object local x assert kinds) occurs at two positions (`m + m`, `L + m + m`, `m + L + m`, L over 7 kinds). Every composed object is probed with 23 probes (field read, objectHas, objectHasAll, in, std.get for present/absent names; objectFields, objectFieldsAll, length, objectValues, manifestation, equality with a re-layered copy, super read and `in super` from one more layer on top) and every probe result is compared with the reference object model R2. \
+			(deep) chains of 4 and 5 layers with at most 4 non-absent members; (shared) every chain in which one layer *value* (all 12 kinds x object local x assert kinds) occurs at two positions (`m + m`, `L + m + m`, `m + L + m`, L over 7 kinds), and every 2-layer chain whose first layer value is used on its own first (manifested: assertions run, fields cached) and only then extended, over all pairs of 5 assertion kinds including a late-bound `assert self.a[0] == ...`. Every composed object is probed with 23 probes (field read, objectHas, objectHasAll, in, std.get for present/absent names; objectFields, objectFieldsAll, length, objectValues, manifestation, equality with a re-layered copy, super read and `in super` from one more layer on top) and every probe result is compared with the reference object model R2. \
 			non-trivial = distinct chain text; failing chains are shrunk (members removed) and the minimal chain keys the class"
 			.into(),
 		assumptions: vec!["the reference object model in harness/src/refi.rs (layers, masks, visibility merge, assertion timing) is the trusted statement of the language's object semantics".into()],
@@ -53,7 +53,8 @@ pub const KINDS_QUICK3: [u8; 7] = [0, 1, 2, 3, 4, 7, 8];
 #[derive(Clone, PartialEq, Debug)]
 pub struct LayerD {
 	pub kinds: Vec<u8>,
-	/// 0 none, 1 `assert true`, 2 `assert std.isArray(self.a) || true`-like assert reading self, 3 `assert false`
+	/// 0 none, 1 `assert true`, 2 `assert std.isArray(self.a) || true`-like assert reading self, 3 `assert false`,
+	/// 4 `assert self.a[0] == "<layer>a"` (depends on which layer's `a` the composed object sees)
 	pub assert_kind: u8,
 	/// composed with the previous layers by extension syntax `prev { ... }` instead of `prev + { ... }`
 	pub ext: bool,
@@ -68,7 +69,9 @@ pub struct Chain {
 	pub mask_after: Option<usize>,
 	pub nnames: usize,
 	/// 0: all layers distinct; 1: the last layer's *value* is bound once (`local m = ...`) and appended twice
-	/// (`... + m + m`); 2: it is used as first and as last layer (`m + ... + m`)
+	/// (`... + m + m`); 2: it is used as first and as last layer (`m + ... + m`);
+	/// 3: the FIRST layer's value is bound once, used on its own first (manifested, so its assertions have run and
+	/// its fields are cached) and only then extended by the other layers (`local m = L1; local w = std.toString(m); if std.length(w) >= 0 then m + L2 ...`)
 	pub dup_last: u8,
 }
 
@@ -104,7 +107,9 @@ fn layer_body(chain: &Chain, li: usize) -> ObjBody {
 		0 => vec![],
 		1 => vec![(Ex::True, None)],
 		2 => vec![(bin(stdcall("objectHas", vec![Ex::SelfE, s("a")]), BinOp::Or, Ex::True), Some(s("reads self")))],
-		_ => vec![(Ex::False, Some(s(&format!("assert of layer {}", li + 1))))],
+		3 => vec![(Ex::False, Some(s(&format!("assert of layer {}", li + 1))))],
+		// late bound: holds for the layer alone when it defines `a` plainly, fails once another layer's `a` is the one `self` sees
+		_ => vec![(bin(idx(dot(Ex::SelfE, "a"), num(0.0)), BinOp::Eq, s(&format!("{}a", li + 1))), Some(s(&format!("late bound assert of layer {}", li + 1))))],
 	};
 	ObjBody::Members { locals, asserts, fields }
 }
@@ -121,14 +126,19 @@ pub fn build(chain: &Chain) -> Ex {
 			seq.push(None);
 			seq.push(None);
 		}
+		3 => {
+			seq.push(None);
+			seq.extend((1..=last).map(Some));
+		}
 		_ => {
 			seq.push(None);
 			seq.extend((0..last).map(Some));
 			seq.push(None);
 		}
 	}
+	let shared = if chain.dup_last == 3 { 0 } else { last };
 	for src in seq {
-		let li = src.unwrap_or(last);
+		let li = src.unwrap_or(shared);
 		let l = &chain.layers[li];
 		let own = |e: Ex| match l.mask_self {
 			Some(ni) => stdcall("objectRemoveKey", vec![e, s(NAMES[ni])]),
@@ -155,10 +165,10 @@ pub fn build(chain: &Chain) -> Ex {
 		Some(ni) => stdcall("objectRemoveKey", vec![e, s(NAMES[ni])]),
 		None => e,
 	};
-	if chain.dup_last == 0 {
-		e
-	} else {
-		local1("m", Ex::Obj(layer_body(chain, last)), e)
+	match chain.dup_last {
+		0 => e,
+		3 => local1("m", Ex::Obj(layer_body(chain, 0)), local1("w", stdcall("toString", vec![var("m")]), ife(bin(stdcall("length", vec![var("w")]), BinOp::Ge, num(0.0)), e, Ex::Null))),
+		_ => local1("m", Ex::Obj(layer_body(chain, last)), e),
 	}
 }
 
@@ -634,6 +644,24 @@ fn part_shared(shard: &Shard, journal: &Journal, rep: &mut Report) {
 		});
 		base += total;
 	}
+	// warmed first layer: m is used alone, then extended by one layer (both syntaxes are `+` here: m is a variable) --
+	// late-bound and failing assertions on either side
+	let total = for_each_product(&[q, q, k, k, 5, 5], |i, c| {
+		if !shard.mine(base + i) {
+			return;
+		}
+		let chain = Chain {
+			nnames: 2,
+			dup_last: 3,
+			mask_after: None,
+			layers: vec![
+				LayerD { kinds: vec![KINDS_QUICK3[c[0]], KINDS_QUICK3[c[1]]], assert_kind: c[4] as u8, ext: false, mask_before: None, mask_self: None },
+				LayerD { kinds: vec![KINDS_ALL[c[2]], KINDS_ALL[c[3]]], assert_kind: c[5] as u8, ext: false, mask_before: None, mask_self: None },
+			],
+		};
+		judge_chain(rep, &mut prober, &chain, i % 9973 == 0, journal, base + i);
+	});
+	base += total;
 	rep.count("shared_indexed", base / shard.n);
 }
 
